@@ -3,7 +3,7 @@
    (Harness/C06.v) together with the token-level tie to the modelled writers; the depth clause is proved here. *)
 From Coq Require Import ZArith QArith Qround List.
 Import ListNotations.
-From Femto Require Import Base.Num Ctl.Tok Geo.Rigid Pgm.Ops Trench.TreeProg Trench.TreeProofs.
+From Femto Require Import Base.Num Ctl.Tok Ctl.Machine Ctl.Static Geo.Rigid Pgm.Ops Trench.TreeProg Trench.TreeProofs Trench.TreeSafe.
 Open Scope Q_scope.
 
 (* wall passes of a level are exactly deltaz apart ... *)
@@ -42,3 +42,58 @@ Print Assumptions C06_at_least_one_pass.
 Theorem C06_chain_files_are_moves : forall c speed pts, forallb is_g1 (array2d c speed pts) = true.
 Proof. exact array2d_moves. Qed.
 Print Assumptions C06_chain_files_are_moves.
+
+(* ---- the call discipline and the exposure structure, for every column ---- *)
+
+(* the static checker is sound for the reference controller: if it accepts a tree from an abstract state, then from every
+   machine state that the abstract state describes the tree runs without any controller error, with every open-shutter
+   move a pure z move (open_xy = false), and ends in a state described by the abstract result *)
+Theorem C06_static_checker_sound : forall (open_xy : bool) (rest : list N) call,
+  (forall a m p, R rest a m -> R rest a (fst (call m p)) /\ G open_xy (snd (call m p))) ->
+  forall l a a', chk open_xy a l = Some a' -> forall m, R rest a m ->
+  R rest a' (fst (run_list call m l)) /\ G open_xy (snd (run_list call m l)).
+Proof. exact chk_sound. Qed.
+Print Assumptions C06_static_checker_sound.
+
+(* The modelled call file (FARCALLnnn.pgm) of ANY well-formed column - any number of blocks, stacked boxes and bed blocks,
+   with or without a power axis, rotation lines, homing move - is written, parses, and on the reference controller, from
+   every machine state with the shutter closed (other programs may be loaded: rest) and for every behaviour of the called
+   wall / floor / bed programs that raises nothing and leaves the abstraction untouched:
+     - no controller error: every FARCALL and REMOVEPROGRAM finds its program loaded, $ZCURR is declared and set before
+       it is used, feeds are positive, the repeat count is positive;
+     - outside the called programs the only motion with the shutter open is the pure z step between wall passes (never
+       a travel between blocks, levels or to the first vertex);
+     - it ends with the shutter closed and exactly the programs loaded that were loaded before (everything it loaded was
+       removed). *)
+Theorem C06_call_file_safe : forall c d, (0 <= digits c <= 9)%Z -> (0 < fmt 6 (speed_pos c))%Z -> col_wf c d ->
+  forall file dw o, session c (farcall_ops c d) = Written file dw o ->
+  o = Ok /\ exists tree, parse file = Some tree /\
+    forall rest call,
+      (forall a m p, R rest a m -> R rest a (fst (call m p)) /\ G false (snd (call m p))) ->
+      forall m, R rest TreeSafe.a0 m ->
+        G false (snd (run_list call m tree)) /\
+        msh (fst (run_list call m tree)) = false /\
+        map fst (mloaded (fst (run_list call m tree))) = rest.
+Proof. exact call_file_safe. Qed.
+Print Assumptions C06_call_file_safe.
+
+(* non-vacuity: a column with two blocks, two stacked boxes, one bed block and a power axis is well-formed, its call file
+   is written and accepted by the checker *)
+Example C06_example :
+  let c := {| laser_ok := true; laser_z := false; digits := 6; long_p := Some (1#2); short_p := Some (1#10);
+              speed_pos := 5; home := true; aero := true; tc := neutral |} in
+  let fn := fun n : N => {| f_arg := n; f_base := n; f_pgm := true |} in
+  let blk := fun n : N => {| b_first := (1 # 2, 1 # 4); b_wall_f := fn n; b_wall_n := fn n; b_floor_f := fn (n + 1)%N; b_floor_n := fn (n + 1)%N |} in
+  let d := {| c_blocks := [blk 10%N; blk 20%N]; c_beds := [ {| d_first := (0, 0); d_f := fn 30%N; d_n := fn 30%N |} ];
+              c_nboxz := 2; c_nrepeat := 3; c_hbox := 3 # 40; c_zoff := - (1 # 50); c_dz := 1 # 100; c_u := [30; 33];
+              c_speed_closed := 5; c_zcurr := 7%N |} in
+  match session c (farcall_ops c d) with
+  | Written file _ Ok =>
+      match parse file with
+      | Some tree => match chk false TreeSafe.a0 tree with Some a => negb (a_sh a) && (Nat.eqb (List.length (a_loaded a)) 0) | None => false end
+      | None => false
+      end
+  | _ => false
+  end = true.
+Proof. vm_compute. reflexivity. Qed.
+Print Assumptions C06_example.
